@@ -411,6 +411,9 @@ def write_data(file, tdms_object):
     elif tdms_object.data_type == String:
         # Strings are variable size so need to be treated specially
         write_string_values(file, tdms_object.data)
+    elif tdms_object.data.dtype == np.dtype('O'):
+        # Array of objects such as TdmsTimestamp, which must be converted to bytes one by one
+        write_values(file, tdms_object.data)
     else:
         try:
             to_file(file, tdms_object.data)
